@@ -59,6 +59,19 @@ def main():
         tb = traceback.extract_tb(e.__traceback__)
         repo = str(common.REPO.resolve())
         inner_in_repo = bool(tb) and os.path.realpath(tb[-1].filename).startswith(repo + os.sep)
+        # A result of the code under test that is nan / inf where the check converts it to an exact rational: the conversion raises in
+        # the harness, but the cause is the value the code returned (all registered checks pass on the unchanged tree).
+        nonfinite = isinstance(e, (ValueError, OverflowError)) and ('to integer ratio' in str(e)) and 'chk' in locals()
+        if nonfinite:
+            try:
+                chk.fail('%s:non-finite-result' % a.pid, 'the code under test returned a non-finite value (nan / inf) where a number was expected',
+                         {'traceback': traceback.format_exception(type(e), e, e.__traceback__)[-8:],
+                          'last_sample': (chk.samples[-1] if getattr(chk, 'samples', None) else None)})
+                code = chk.finish()
+                sys.stdout.flush()
+                os._exit(int(code or 1))
+            except BaseException:
+                traceback.print_exc()
         if inner_in_repo and 'chk' in locals() and not isinstance(e, (KeyboardInterrupt, MemoryError)):
             try:
                 where = '%s:%d in %s' % (os.path.relpath(os.path.realpath(tb[-1].filename), repo), tb[-1].lineno, tb[-1].name)
